@@ -32,7 +32,7 @@ UNARY_SELECTORS = ['selecttrue', 'selectfalse', 'selectnone', 'selectnotnone']
 OTHER = ['select-callable', 'select-expr', 'select-field', 'select-multifield', 'biselect', 'facet', 'rowlenselect', 'search', 'search-field',
          'searchcomplement', 'selectusingcontext', 'rowslice', 'head', 'tail', 'skip']
 REQUIRED = (['sel:' + s for s in ORDER_SELECTORS + RANGE_SELECTORS + VALUE_SELECTORS + UNARY_SELECTORS + OTHER] +
-            ['ragged-row-read-as-missing', 'cells-of-a-str-or-date-subclass', 'select-expr:field-name-made-of-digits', 'complement', 'reference-value-none', 'reference-value-foreign-type', 'recording-predicate-rows', 'rows-are-Record-objects', 'field-given-as-a-one-element-sequence', 'selector-called-as-a-table-method', 'selector-called-by-its-short-alias'])
+            ['ragged-row-read-as-missing', 'views-re-read-after-an-in-place-edit-of-the-source', 'cells-of-a-str-or-date-subclass', 'select-expr:field-name-made-of-digits', 'complement', 'reference-value-none', 'reference-value-foreign-type', 'recording-predicate-rows', 'rows-are-Record-objects', 'field-given-as-a-one-element-sequence', 'selector-called-as-a-table-method', 'selector-called-by-its-short-alias'])
 
 TYPES = {'int': int, 'str': str, 'float': float, 'bool': bool, 'NoneType': type(None), 'tuple': tuple, 'bytes': bytes}
 PREDS = {
@@ -274,16 +274,12 @@ def _ms(rows):
     return Counter(util.crow(r) for r in rows)
 
 
+LIVE = [None]       # the plain list the current case's views are built over
+
+
 def _twice(build):
     """rows of two passes over the same view: a selection must not change on a second pass"""
-    view = build()
-    first = util.attempt_rows(lambda: view)
-    if isinstance(first, util.Raised):
-        return first
-    second = util.attempt_rows(lambda: view)
-    if isinstance(second, util.Raised) or util.crows(second) != util.crows(first):
-        return util.Raised(AssertionError('second pass over the same view differs: first=%r second=%r' % (first, second)))
-    return first
+    return util.attempt_rows_twice(build, live=LIVE[0])
 
 
 def _diff(name, got, exp_rows, hdr, extra=None):
@@ -299,6 +295,16 @@ def _diff(name, got, exp_rows, hdr, extra=None):
 
 
 def judge(case, ctx):
+    e0 = util.EDITED[0]
+    try:
+        return _judge(case, ctx)
+    finally:
+        LIVE[0] = None
+        if util.EDITED[0] != e0:
+            ctx.seen('views-re-read-after-an-in-place-edit-of-the-source', util.EDITED[0] - e0)
+
+
+def _judge(case, ctx):
     sel = case['sel']
     ctx.op('sel:' + sel)
     table = copy.deepcopy(case['table'])
@@ -319,6 +325,7 @@ def judge(case, ctx):
         rows = [tuple(r) for r in table[1:]]
         ctx.seen('cells-of-a-str-or-date-subclass')
     field, args, comp, missing = case['field'], case['args'], case['complement'], case['missing']
+    LIVE[0] = table if (type(table) is list and case.get('rows_as') != 'records') else None
     out = []
     kw = {}
     if comp:
